@@ -161,7 +161,8 @@ def r2(rep, prog):
     D = "tantivy::directory::directory::Directory::"
     body = get_body(rep, prog, R, sm)
     if body is not None:
-        for names, what in ((prog.names(r"^serde_json::.*to_vec_pretty$"), "serde_json::to_vec_pretty"), (family(prog, D + "sync_directory"), "sync_directory")):
+        from .c01 import sync_events
+        for names, what in ((prog.names(r"^serde_json::.*to_vec_pretty$"), "serde_json::to_vec_pretty"), (sync_events(prog), "sync_directory")):
             rule_result_checked(rep, prog, R, sm, names, what)
         rule_precede(rep, prog, R, sm, prog.names(r"^serde_json::.*to_vec_pretty$"), family(prog, D + "atomic_write"), "serialisation of the meta", "atomic_write")
     from .c01 import store_meta_after_publish
